@@ -2,7 +2,7 @@
    input line:  <id> <op>;<op>;...        (no blanks inside the program)
      atom  : x (xmlns) | m (xml) | X<n> (starts with xml) | U<n> | G<n> (ns<n>)
      pfx   : - | atom            qname : pfx,atom         ouri : - | <n>
-     op    : T | E | A|qname|ouri|ouri|v | M|qname|ouri|ouri|ouri|pdef
+     op    : T | E | A|qname|ouri|ouri|v | SA|<as A> (member of an attribute set) | M|qname|ouri|ouri|ouri|pdef
            | L|qname|pfx=uri+...|uri+...|qname=v+...       (empty list: _)
            | LO|<as L>  ...A ops of the attribute sets...  LA|pfx=uri+...|qname=v+...   (LRE with use-attribute-sets)
    output line: <id> <hazards joined by +, or -> <wellformed 0/1> <event> <event> ...
@@ -23,6 +23,7 @@ let op_of s =
   | ["T"] -> OText
   | ["E"] -> OEnd
   | ["A"; q; ns; sns; v] -> OAttr (qname_of q, ouri_of ns, ouri_of sns, n_of_int (int_of_string v))
+  | ["SA"; q; ns; sns; v] -> OSetAttr (qname_of q, ouri_of ns, ouri_of sns, n_of_int (int_of_string v))
   | ["M"; q; ns; sns; sdef; pdef] -> OElem (qname_of q, ouri_of ns, ouri_of sns, ouri_of sdef, n_of_int (int_of_string pdef))
   | ["L"; q; ins; ex; ats] ->
       OLre (qname_of q,
